@@ -52,4 +52,29 @@ def groups (keys : List (Option Nat)) : List (Nat × List Nat) :=
 def runs (excl : List (Option Nat × Nat)) (ruleId : Option Nat) (v : Nat) : Bool :=
   !excl.contains (ruleId, v)
 
+/-! ## Which of the registered validators the model covers (tied to the live registry by
+`Gen/Valid.lean`, `Oblig/C19.lean`: a validator added to the code must be put into one of the lists) -/
+
+/-- validators whose issues the model computes: `danglingDetections`, `danglingConditions`, `groups` -/
+def modelled : List String :=
+  ["dangling_detection", "dangling_condition", "identifier_uniqueness", "duplicate_title", "duplicate_filename"]
+
+/-- validators the model says nothing about beyond "validation only observes" (checked statically for
+all of them, and by the sweep): per-rule style checks of conditions, log sources, metadata, modifiers,
+tags and values -/
+def notModelled : List String :=
+  ["all_of_them_condition", "them_condition_with_single_detection",
+   "fieldname_logsource", "specific_instead_of_generic_logsource",
+   "custom_attributes", "duplicate_references", "filename_length", "identifier_existence",
+   "invalid_modifier_combinations",
+   "attacktag", "cartag", "cvetag", "d3_fendtag", "detection_tag", "duplicate_tag", "namespace_tag", "stptag",
+   "tlptag", "tlpv1_tag", "tlpv2_tag", "tag_format",
+   "control_character", "double_wildcard", "escaped_wildcard", "number_as_string",
+   "wildcards_instead_of_modifiers"]
+
+/-- methods the validators call on the objects they are handed, reviewed as pure observers -/
+def knownObservers : List String :=
+  ["contains_special", "endswith", "items", "keys", "values", "get", "parse", "resolve_referenced_detections",
+   "startswith", "lower", "upper", "count", "index", "find"]
+
 end SigmaVerif.Valid
